@@ -35,10 +35,11 @@
 (* A program is written to IOEnv.OUT (one JSON line, appended) when it has *)
 (* reached P.K items; open scopes are closed by Finish.                    *)
 (***************************************************************************)
-EXTENDS Integers, Sequences, FiniteSets, TLC, Json, IOUtils, SequencesExt
+EXTENDS ScopesText, Json, IOUtils
 
 VARIABLES stack, tabs, decl, prog
 vars == <<stack, tabs, decl, prog>>
+\* (the number of items of prog that are not closing braces is Size; Next writes nothing once Size = P.K)
 
 P == ndJsonDeserialize(IOEnv.PARAMS)[1]
 \* P.K       number of items (closing braces not counted) of an emitted program
@@ -55,25 +56,6 @@ Ord(n) == CHOOSE i \in DOMAIN VarSeq : VarSeq[i] = n
 
 NoVars == [n \in Vars |-> 0]                  \* a scope that declares nothing
 LocalKinds == {"func", "meth", "block", "for", "lambda"}
-
-(***************************************************************************)
-(* Items of the program text.  All items have the same fields:             *)
-(*   op    ns class func block for lambda close decl use fdecl call        *)
-(*   nm    the name written (variable, f, namespace; classes, functions    *)
-(*         and lambda objects get a name made from their item number)      *)
-(*   id    declaration id: the new id for declaring items, the id the      *)
-(*         name is bound to for use / call                                 *)
-(*   form  decl: global local field smember; use: plain this qual glob;    *)
-(*         lambda: "=" "&" "list"                                          *)
-(*   q     path of the qualifier of a qualified use                        *)
-(*   sub   further name tokens of the construct, in text order:            *)
-(*         func/lambda parameters, for-header uses, lambda captures, the   *)
-(*         use in an initialiser; for fdecl / call the parameter /         *)
-(*         argument types                                                  *)
-(***************************************************************************)
-Item(op, nm, id, form, q, sub) == [op |-> op, nm |-> nm, id |-> id, form |-> form, q |-> q, sub |-> sub]
-Sub(nm, id, form) == [nm |-> nm, id |-> id, form |-> form]
-CloseItem == Item("close", "", 0, "", <<>>, <<>>)
 
 Frame(k, path, tbl, cap, pend) == [k |-> k, path |-> path, tbl |-> tbl, cap |-> cap, pend |-> pend]
 \* cap of a lambda frame: [all |-> default capture present, names |-> explicitly captured names, this |-> `this` captured]
@@ -173,7 +155,7 @@ Push(fr, it, newdecls, newtabs) ==
   /\ decl' = decl \o newdecls
   /\ tabs' = newtabs
 
-CanOpen == Size < P.K /\ Len(stack) <= P.depth
+CanOpen == Len(stack) <= P.depth
 
 OpenNs(nm) ==
   /\ P.ns /\ CanOpen /\ Top.k \in {"file", "ns"}
@@ -275,7 +257,7 @@ CloseProg(fr, pr, tb) == Append(IF fr.k = "class" THEN Patch(pr, fr.pend, fr.pat
 LastDeclares == LET it == prog[Len(prog)] IN it.op \in {"for", "decl", "use", "call", "fdecl", "close"} \/ it.sub # <<>>
 
 Close ==
-  /\ Len(stack) > 1 /\ Size < P.K /\ LastDeclares
+  /\ Len(stack) > 1 /\ LastDeclares
   /\ Top.k = "class" => Resolvable(Top, tabs)
   /\ stack' = Front(stack)
   /\ prog' = CloseProg(Top, prog, tabs)
@@ -302,7 +284,7 @@ AddPending(st, p) == [st EXCEPT ![ClassFrame].pend = @ \cup {p}]
 PendOK(n, r) == r.outer # 0 \/ tabs[stack[ClassFrame].path].v[n] # 0 \/ (P.late /\ n \in Declared)
 
 DeclareScope(n, st) ==                            \* in a namespace, the file or a class
-  /\ Size < P.K /\ Top.k \in {"file", "ns", "class"} /\ Fresh(n, {})
+  /\ Top.k \in {"file", "ns", "class"} /\ Fresh(n, {})
   /\ tabs[Top.path].v[n] = 0
   /\ st \in (IF Top.k = "class" THEN {"field", "smember"} ELSE {"global"})
   /\ prog' = Append(prog, Item("decl", n, NextId, st, <<>>, <<>>))
@@ -311,7 +293,7 @@ DeclareScope(n, st) ==                            \* in a namespace, the file or
   /\ UNCHANGED stack
 
 DeclareLocal(n) ==
-  /\ Size < P.K /\ InBody /\ Fresh(n, {}) /\ Top.tbl[n] = 0
+  /\ InBody /\ Fresh(n, {}) /\ Top.tbl[n] = 0
   /\ prog' = Append(prog, Item("decl", n, NextId, "local", <<>>, <<>>))
   /\ decl' = Append(decl, NewVar(n, "auto"))
   /\ stack' = [stack EXCEPT ![Len(stack)].tbl[n] = NextId]
@@ -319,7 +301,7 @@ DeclareLocal(n) ==
 
 \* int n = m;  in a function body or at namespace scope; m is looked up in the state AFTER the declaration of n
 DeclareInit(n, m) ==
-  /\ P.init /\ Size < P.K /\ Fresh(n, {})
+  /\ P.init /\ Fresh(n, {})
   /\ \/ /\ InBody /\ Top.tbl[n] = 0
         /\ LET st2 == [stack EXCEPT ![Len(stack)].tbl[n] = NextId]
                r == IF m = n THEN [kind |-> "found", id |-> NextId] ELSE Lookup(m) IN
@@ -349,7 +331,7 @@ DeclareInit(n, m) ==
 (* the class, or P.late allows declaring the member later).                *)
 (***************************************************************************)
 UsePlain(n) ==
-  /\ Size < P.K /\ InBody
+  /\ InBody
   /\ LET r == Lookup(n) IN
        \/ /\ r.kind = "found"
           /\ prog' = Append(prog, Item("use", n, r.id, "plain", <<>>, <<>>))
@@ -360,14 +342,14 @@ UsePlain(n) ==
   /\ UNCHANGED <<tabs, decl>>
 
 UseThis(n) ==
-  /\ P.cls /\ Size < P.K /\ ThisOK
+  /\ P.cls /\ ThisOK
   /\ (tabs[stack[ClassFrame].path].v[n] # 0 \/ (P.late /\ n \in Declared))
   /\ prog' = Append(prog, Item("use", n, 0, "this", <<>>, <<>>))
   /\ stack' = AddPending(stack, Pending(n, 0, TRUE))
   /\ UNCHANGED <<tabs, decl>>
 
 UseQual(n, path) ==
-  /\ P.qual /\ Size < P.K /\ InBody /\ path \in DOMAIN tabs
+  /\ P.qual /\ InBody /\ path \in DOMAIN tabs
   /\ tabs[path].v[n] # 0
   /\ decl[tabs[path].v[n]].st \in {"global", "smember"}
   /\ prog' = Append(prog, Item("use", n, tabs[path].v[n], IF path = <<>> THEN "glob" ELSE "qual", path, <<>>))
@@ -380,7 +362,7 @@ UseQual(n, path) ==
 TypeSubs(ts, form) == [j \in DOMAIN ts |-> Sub(ts[j], 0, form)]
 
 FDecl(sig) ==
-  /\ P.ovl /\ Size < P.K /\ Top.k \in {"file", "ns"}
+  /\ P.ovl /\ Top.k \in {"file", "ns"}
   /\ \A c \in tabs[Top.path].f : decl[c].sig # sig
   /\ prog' = Append(prog, Item("fdecl", "f", NextId, "", <<>>, TypeSubs(sig, "ptype")))
   /\ decl' = Append(decl, [nm |-> "f", st |-> "fn", sig |-> sig])
@@ -388,7 +370,7 @@ FDecl(sig) ==
   /\ UNCHANGED stack
 
 Call(args) ==
-  /\ P.ovl /\ Size < P.K /\ InBody
+  /\ P.ovl /\ InBody
   /\ LET b == Best(FunScope(Len(stack)), args) IN
        /\ Cardinality(b) = 1
        /\ prog' = Append(prog, Item("call", "f", CHOOSE c \in b : TRUE, "", <<>>, TypeSubs(args, "atype")))
@@ -407,40 +389,34 @@ Init ==
   /\ decl = <<>>
   /\ prog = <<>>
 
-Next ==
-  \/ \E nm \in {"N", "M"} : OpenNs(nm)
-  \/ OpenClass
-  \/ \E ps \in ParamLists : OpenFunc(ps)
+\* what can be written inside a function / lambda body, and what at file, namespace or class level
+BodyNext ==
   \/ OpenBlock
   \/ \E n \in Vars : OpenFor(n)
   \/ \E mode \in {"=", "&"}, ps \in {q \in ParamLists : Len(q) <= 1} : OpenLambdaDefault(mode, ps)
   \/ \E n \in Vars, how \in {"copy", "ref"}, ps \in {q \in ParamLists : Len(q) <= 1} : OpenLambdaCapture(n, how, ps)
   \/ \E ps \in {q \in ParamLists : Len(q) <= 1} : OpenLambdaThis(ps)
   \/ \E m, n \in Vars : OpenLambdaInit(m, n, <<>>)
-  \/ Close
-  \/ \E n \in Vars, st \in {"global", "field", "smember"} : DeclareScope(n, st)
   \/ \E n \in Vars : DeclareLocal(n)
   \/ \E n, m \in Vars : DeclareInit(n, m)
   \/ \E n \in Vars : UsePlain(n)
   \/ \E n \in Vars : UseThis(n)
   \/ \E n \in Vars, path \in DOMAIN tabs : UseQual(n, path)
-  \/ \E sig \in Sigs : FDecl(sig)
   \/ \E args \in ArgLists : Call(args)
 
-Spec == Init /\ [][Next]_vars
+ScopeNext ==
+  \/ \E nm \in {"N", "M"} : OpenNs(nm)
+  \/ OpenClass
+  \/ \E ps \in ParamLists : OpenFunc(ps)
+  \/ \E n \in Vars, st \in {"global", "field", "smember"} : DeclareScope(n, st)
+  \/ \E n, m \in Vars : DeclareInit(n, m)
+  \/ \E sig \in Sigs : FDecl(sig)
 
-(***************************************************************************)
-(* Name tokens of a program and what they mean.                            *)
-(*   Toks(pr): [i |-> item, s |-> 0 for the item's own name or the index   *)
-(*   in sub, nm, id, role \in {"decl", "use", "fdecl", "call"}]            *)
-(***************************************************************************)
-MainRole(it) == CASE it.op \in {"decl", "for"} -> "decl" [] it.op = "use" -> "use" [] it.op = "fdecl" -> "fdecl"
-                  [] it.op = "call" -> "call" [] OTHER -> ""
-SubRole(sb) == CASE sb.form \in {"param", "initcap"} -> "decl" [] sb.form \in {"use", "copy", "ref", "initsrc", "init"} -> "use" [] OTHER -> ""
-Toks(pr) ==
-  {[i |-> i, s |-> 0, nm |-> pr[i].nm, id |-> pr[i].id, role |-> MainRole(pr[i])] : i \in {j \in DOMAIN pr : MainRole(pr[j]) # ""}}
-  \cup UNION {{[i |-> i, s |-> s, nm |-> pr[i].sub[s].nm, id |-> pr[i].sub[s].id, role |-> SubRole(pr[i].sub[s])] :
-                 s \in {t \in DOMAIN pr[i].sub : SubRole(pr[i].sub[t]) # ""}} : i \in DOMAIN pr}
+Next == /\ Size < P.K
+        /\ \/ Close
+           \/ IF InBody THEN BodyNext ELSE ScopeNext
+
+Spec == Init /\ [][Next]_vars
 
 (***************************************************************************)
 (* Invariants of the specification itself (checked on every state).        *)
